@@ -159,6 +159,10 @@ def run(ctx, selftest=False):
         _selftest(ctx, traces)
 
 
+def b_ok(t, Counter):
+    return bool(t["offc"]) and min(Counter(t["labels"]).values()) >= 2 and len(t["offc"][0]) >= 4
+
+
 def _selftest(ctx, traces):
     import copy
     muts = []
@@ -166,8 +170,11 @@ def _selftest(ctx, traces):
             and t["labels"] != sorted(t["labels"])][:4]
     for i, t in enumerate(pool):
         a = copy.deepcopy(t); a["id"] = "st-lab-%d" % i; a["labels"] = sorted(a["labels"]); muts.append((a, "C08.LabelFollowsObservation"))
-        b = copy.deepcopy(t); b["id"] = "st-off-%d" % i; b["offc"][0] = b["offc"][0][::-1]
-        if b["offc"][0] != t["offc"][0]:
+        # one observation moved in / out of an offset column: with every survey holding >= 2 epochs the column then marks no
+        # survey's epochs exactly, whichever survey is taken as the reference (reversing a column can be a legal relabelling)
+        from collections import Counter
+        if b_ok(t, Counter):
+            b = copy.deepcopy(t); b["id"] = "st-off-%d" % i; b["offc"][0][0] = 1 - b["offc"][0][0]
             muts.append((b, "C08.OffsetColumnPerSurveyOneReference"))
     v = ctx.validate("MultiSurveyTrace", [m for m, _ in muts])
     ctx.traces_validated -= len(muts)
